@@ -13,6 +13,7 @@ import (
 	"math"
 	"os"
 	"strings"
+	"time"
 
 	"github.com/iDigitalFlame/xmt/data"
 
@@ -615,6 +616,11 @@ func (m *queue) apply(limit int, o Op, r Ret, before, after snap) (what, key str
 		if r.e != 0 && !(r.e == 1 && k == 0) {
 			return bad(fmt.Sprintf("Read returned error code %d with %d bytes", r.e, k), "read-error")
 		}
+		// a drained queue reports EOF to a reader that asks for bytes (io.ReadFull and
+		// ReadFrom loops over the Chunk rely on it to terminate)
+		if len(m.q) == 0 && o.N > 0 && r.e != 1 {
+			return bad(fmt.Sprintf("Read(%d) on an empty buffer returned (%d, code %d), not EOF", o.N, len(r.d), r.e), "read-empty-no-eof")
+		}
 		m.past = append(m.past, m.q[:k]...)
 		m.q = m.q[k:]
 	case "rfixed":
@@ -1135,7 +1141,7 @@ func corpus() []Seq {
 		// slide ignored the limit (fixed)
 		{Limit: 8, Ops: []Op{w(8), rd(6), w(8), rd(20)}},
 		{Limit: 20, Ops: []Op{w(20), rd(18), w(50)}},
-		// Read on a never-written Chunk: (0, nil)
+		// Read on a never-written Chunk: io.EOF like any drained Chunk (was (0, nil) forever; fixed)
 		{Limit: 0, Ops: []Op{rd(4), rd(0), w(0), rd(4), w(1), rd(4), rd(4)}},
 		// typed writes never fill the last byte
 		{Limit: 8, Ops: []Op{{K: "wfixed", W: 8, V: 1}, {K: "wfixed", W: 4, V: 1}, {K: "wfixed", W: 2, V: 1}, {K: "wfixed", W: 1, V: 1}, {K: "wfixed", W: 1, V: 2}, w(1)}},
@@ -1146,6 +1152,13 @@ func corpus() []Seq {
 		{Limit: 0, Ops: []Op{w(1), w(63), w(1), w(64), w(129), rd(258), rd(1), w(5), rd(5)}},
 		{Limit: 0, Ops: []Op{w(16385), rd(16384), w(16383), {K: "writeto", N: 1 << 30}}},
 		{Limit: 0, Ops: []Op{w(40000), {K: "writeto", N: 20000}, {K: "writeto", N: 1 << 30}}},
+		// WriteTo into writers that take k bytes and then fail: k at, just below and just above the
+		// 16 KiB block boundary, k = 0, and after a partial read (the count reported, the bytes the
+		// writer received and the bytes consumed must all be k)
+		{Limit: 0, Ops: []Op{w(40000), {K: "writeto", N: 16384}, {K: "writeto", N: 1 << 30}}},
+		{Limit: 0, Ops: []Op{w(40000), {K: "writeto", N: 16383}, rd(2), {K: "writeto", N: 16385}, {K: "writeto", N: 1 << 30}}},
+		{Limit: 0, Ops: []Op{w(33000), rd(100), {K: "writeto", N: 32768}, {K: "writeto", N: 0}, {K: "writeto", N: 1}, rd(200)}},
+		{Limit: 0, Ops: []Op{w(100), rd(10), {K: "writeto", N: 0}, {K: "writeto", N: 1}, {K: "writeto", N: 88}, {K: "writeto", N: 5}, rd(4)}},
 		// seek back and forth, truncate, grow
 		{Limit: 0, Ops: []Op{w(10), rd(4), {K: "seek", Off: 0, Wh: 0}, rd(10), {K: "seek", Off: -3, Wh: 2}, {K: "trunc", N: 2}, rd(5), {K: "grow", N: 100}, w(3), rd(3)}},
 		{Limit: 64, Ops: []Op{{K: "grow", N: 100}, w(70), {K: "grow", N: 1}, rd(64), {K: "grow", N: 1}, w(1)}},
@@ -1159,6 +1172,69 @@ func corpus() []Seq {
 		// NewChunk with a preset buffer
 		{Limit: 0, Init: &Src{3, 5, 0}, Ops: []Op{rd(2), w(3), rd(10)}},
 		{Limit: 0, Init: &Src{3, 0, 0}, Ops: []Op{rd(2), w(3), rd(10)}},
+	}
+}
+
+// readersTerminate: the standard reader loops over an empty Chunk return (they rely on io.EOF).
+// Each loop runs in its own goroutine under a timeout; a loop that spins is an oracle failure.
+func readersTerminate() {
+	mk := map[string]func() *data.Chunk{
+		"never-written": func() *data.Chunk { return new(data.Chunk) },
+		"drained": func() *data.Chunk {
+			c := new(data.Chunk)
+			c.Write([]byte{1, 2, 3})
+			c.Read(make([]byte, 3))
+			return c
+		},
+		"cleared": func() *data.Chunk { c := new(data.Chunk); c.Write([]byte{1}); c.Clear(); return c },
+		"limited-never-written": func() *data.Chunk { return &data.Chunk{Limit: 8} },
+	}
+	loops := map[string]func(c *data.Chunk) string{
+		"io.ReadFull": func(c *data.Chunk) string {
+			n, err := io.ReadFull(c, make([]byte, 1))
+			if n != 0 || err != io.EOF {
+				return fmt.Sprintf("io.ReadFull returned (%d, %v), want (0, EOF)", n, err)
+			}
+			return ""
+		},
+		"io.ReadAll": func(c *data.Chunk) string {
+			b, err := io.ReadAll(c)
+			if len(b) != 0 || err != nil {
+				return fmt.Sprintf("io.ReadAll returned (%d bytes, %v), want (0, nil)", len(b), err)
+			}
+			return ""
+		},
+		"Chunk.ReadFrom": func(c *data.Chunk) string {
+			var d data.Chunk
+			n, err := d.ReadFrom(c)
+			if n != 0 || err != nil {
+				return fmt.Sprintf("ReadFrom(empty Chunk) returned (%d, %v), want (0, nil)", n, err)
+			}
+			return ""
+		},
+	}
+	for cn, f := range mk {
+		for ln, g := range loops {
+			done := make(chan string, 1)
+			go func() {
+				defer func() {
+					if r := recover(); r != nil {
+						done <- fmt.Sprint("panic: ", r)
+					}
+				}()
+				done <- g(f())
+			}()
+			what := ""
+			select {
+			case what = <-done:
+			case <-time.After(2 * time.Second):
+				what = "does not return within 2 s (no io.EOF)"
+			}
+			out.Count("reader-loop", cn+"/"+ln, false)
+			if what != "" {
+				out.Fail(ln+" over a "+cn+" Chunk: "+what, "read-empty-no-eof", map[string]interface{}{"chunk": cn, "loop": ln})
+			}
+		}
 	}
 }
 
@@ -1182,6 +1258,7 @@ func main() {
 	for _, s := range corpus() {
 		doSeq("corpus", s)
 	}
+	readersTerminate()
 
 	small := profile{"small", []int{0, 1, 2, 3, 7, 8, 9, 10, 31, 32, 33, 63, 64, 65}, 60, limits, 0}
 	medium := profile{"medium", []int{0, 1, 63, 64, 65, 127, 128, 129, 255, 256, 257, 1000}, 40, []int{0, 64, 65, 1000, 16384, 20000}, 0}
